@@ -212,9 +212,8 @@ func (p *statsProcessor) processGroupByRequest(inputIQR *iqr.IQR) (*iqr.IQR, err
 				} else {
 					tsCVal, tsErr := record.ReadColumn(timestampkey)
 					if tsErr != nil {
-						p.errorData.readColumns[timestampkey] = err
-						tsCVal.CVal = sutils.VALTYPE_ENC_BACKFILL
-						tsCVal.Dtype = sutils.SS_DT_BACKFILL
+						p.errorData.readColumns[timestampkey] = tsErr
+						tsCVal = &sutils.CValueEnclosure{CVal: sutils.VALTYPE_ENC_BACKFILL, Dtype: sutils.SS_DT_BACKFILL}
 					}
 					measureResults[idx] = *tsCVal
 				}
